@@ -160,7 +160,7 @@ func (x *opCtx) runOp() error {
 		return err
 	case "HistoryReadEvent":
 		_, err := cl.HistoryReadEvent(ctx, []*ua.HistoryReadValueID{{NodeID: nid1, DataEncoding: &ua.QualifiedName{}}, {NodeID: nid2, DataEncoding: &ua.QualifiedName{}}},
-			&ua.ReadEventDetails{StartTime: time.Unix(0, 0), EndTime: time.Unix(100, 0), NumValuesPerNode: 10, Filter: &ua.EventFilter{}})
+			&ua.ReadEventDetails{StartTime: time.Unix(0, 0), EndTime: time.Unix(100, 0), NumValuesPerNode: 10, Filter: &ua.EventFilter{WhereClause: &ua.ContentFilter{}}})
 		return err
 	case "HistoryReadProcessed":
 		_, err := cl.HistoryReadProcessed(ctx, []*ua.HistoryReadValueID{{NodeID: nid1, DataEncoding: &ua.QualifiedName{}}, {NodeID: nid2, DataEncoding: &ua.QualifiedName{}}},
@@ -641,6 +641,10 @@ func c21run(srv *c21srv, c c21case) (res c21result, engineErr string) {
 	}
 	if f := srv.failureText(); f != "" {
 		engineErr = f
+	}
+	// vacuity guard: the scripted response of the case must really have been sent
+	if engineErr == "" && srv.scriptedSent(c.Svc) == 0 {
+		engineErr = fmt.Sprintf("the scripted %s response was never requested by the operation (outcome %s, error %q)", c.Svc, res.Outcome, res.Err)
 	}
 	return res, engineErr
 }
